@@ -36,6 +36,9 @@ StepOps ==
               [] d.kind = "while" -> << <<"while_stmt", Len(log)>> >> \o r.s.ops
               [] d.kind = "for"   -> r.s.ops \o (IF ok THEN << <<"for_stmt", Len(r.s.log)>> >> ELSE <<>>)
               [] OTHER            -> r.s.ops
+       ELSE IF d.kind = "setattr"
+       THEN Eval(d.e, f.env, S0(PadTo(Used, d.nch))).s.ops
+       ELSE IF d.kind = "newobj" THEN << <<"call", Len(log)>> >>
        ELSE IF d.kind = "call" /\ NCallsOf(ctrl') > NCallsOf(ctrl) THEN << <<"call", Len(log)>> >>
        ELSE <<>>
   ELSE IF f.k = "while"
